@@ -159,6 +159,9 @@ func applyMask(s []byte, mask uint64, out []byte) []byte {
 func TestCheck(t *testing.T) {
 	r := vkit.Start("C10")
 	defer r.Finish(t)
+	if r.ReplayCold() {
+		return
+	}
 	if r.Replay != "" {
 		var c Case
 		if err := r.LoadReplay(&c); err != nil {
@@ -367,6 +370,15 @@ func TestCheck(t *testing.T) {
 			})
 			restore()
 		}
+	})
+
+	r.Phase(fmt.Sprintf("X: %d cold-start scenarios (which roman call comes first in a fresh process)", len(coldScenarios)), func() {
+		r.Serial(func(w *vkit.W) {
+			for _, sc := range coldScenarios {
+				r.RunCold(w, sc, false)
+				w.EvalRandom(vkit.Hash64("cold", sc), true)
+			}
+		})
 	})
 
 	// Phase C: rapid - numerals of larger numbers with random flags and case, optionally edited (shrinks to a minimal text).
